@@ -254,6 +254,28 @@ func (ex *Exec) applyContract(st *State, in ssa.Instruction, ord int, name strin
 			eenv.vars[rn] = v
 		}
 	}
+	// ghost loop variables mentioned in the callee's postconditions are witnesses it produced: existential for the caller
+	// (the caller can name them <method>_<ghost>, e.g. up_pi, in its own witness clauses and postconditions)
+	short := shortCallee(name)
+	if i := strings.LastIndex(short, "."); i >= 0 {
+		short = short[i+1:]
+	}
+	for _, ls := range spec.Loops {
+		for _, g := range ls.Ghosts {
+			if _, bound := eenv.vars[g.Name]; !bound {
+				w := Sc{ex.ctx.Fresh("wit_"+sanitize(short)+"_"+g.Name, ghostSortOf(g.Init))}
+				eenv.vars[g.Name] = TV{w, nil}
+				st.ghost[short+"_"+g.Name] = w
+			}
+		}
+	}
+	for _, wt := range spec.Witnesses {
+		if _, bound := eenv.vars[wt.Name]; !bound {
+			w := Sc{ex.ctx.Fresh("wit_"+sanitize(short)+"_"+wt.Name, kindSort(wt.Kind))}
+			eenv.vars[wt.Name] = TV{w, nil}
+			st.ghost[short+"_"+wt.Name] = w
+		}
+	}
 	for _, e := range spec.Ensures {
 		st.assume(eenv.evalBool(e.Expr))
 	}
@@ -362,8 +384,8 @@ func (env *Env) evalLoc(e *SExpr) Loc {
 			}
 		}
 		if env.ex.fn != nil {
-			if obj, ok := env.ex.fn.Pkg.Pkg.Scope().Lookup(e.Op).(*types.Var); ok {
-				return Loc{Kind: "G", Base: env.ex.fn.Pkg.Pkg.Path() + "." + e.Op, Type: obj.Type()}
+			if obj, ok := env.specPkg().Scope().Lookup(e.Op).(*types.Var); ok {
+				return Loc{Kind: "G", Base: env.specPkg().Path() + "." + e.Op, Type: obj.Type()}
 			}
 		}
 	case "unop":
@@ -495,6 +517,61 @@ func (st *State) setHeapRec(key string, val Term) {
 // useLemmas instantiates the lemmas named in `use` clauses: their requires become obligations, their ensures assumptions.
 func (ex *Exec) useLemmas(st *State, env *Env, prefix string) {
 	for i, u := range ex.spec.Uses {
+		if u.Kind == "forall" {
+			// use forall k :: lemma(args): the proved lemma holds for every k, so (requires ==> ensures) is assumed
+			// universally; nothing is obliged (the requires are antecedents).
+			call := u.Args[0]
+			var lem *FnSpec
+			if ex.cf != nil {
+				lem = ex.cf.Fns["lemma "+call.Op]
+			}
+			if lem == nil || len(lem.Params) != len(call.Args) {
+				sfail("use forall: unknown lemma %s or wrong number of arguments", call.Op)
+			}
+			bound := map[string]bool{}
+			for _, v := range u.Vars {
+				bound[v.Name] = true
+			}
+			depParams := map[string]bool{}
+			for j, a := range call.Args {
+				if mentions(a, bound) {
+					depParams[lem.Params[j]] = true
+				}
+			}
+			// hypotheses that do not depend on the bound variables are established once, here
+			oenv := &Env{ex: ex, cur: env.cur, old: env.old, sink: st, vars: map[string]TV{}, cf: ex.cf}
+			for j, a := range call.Args {
+				if !depParams[lem.Params[j]] {
+					oenv.vars[lem.Params[j]] = env.eval(a)
+				}
+			}
+			var dep []*SExpr
+			for j, r := range lem.Requires {
+				if mentions(r.Expr, depParams) {
+					dep = append(dep, r.Expr)
+					continue
+				}
+				g := oenv.evalBool(r.Expr)
+				ex.obligs = append(ex.obligs, Oblig{Name: fmt.Sprintf("%suse%d.%s.pre%d", prefix, i, call.Op, j), Kind: "requires",
+					Asm: st.asm[:len(st.asm):len(st.asm)], Goal: g, Desc: "lemma " + call.Op + " requires " + r.Src})
+				st.assume(g)
+			}
+			// the universal statement is built as a spec quantifier over a synthetic predicate, so that it gets the same
+			// absolute-index treatment as every other quantifier (and therefore matches heap terms)
+			body := conjExpr(lemClauses(lem.Ensures))
+			if len(dep) > 0 {
+				body = &SExpr{Kind: "binop", Op: "==>", Args: []*SExpr{conjExpr(dep), body}}
+			}
+			dn := fmt.Sprintf("lemma$%s$%d", call.Op, ex.ctx.counter["lemdef"])
+			ex.ctx.counter["lemdef"]++
+			ex.cf.Defs[dn] = &SpecDef{Name: dn, Kind: "pred", Params: lem.Params, Body: body}
+			q := &SExpr{Kind: "forall", Vars: u.Vars, Args: []*SExpr{{Kind: "call", Op: dn, Args: call.Args}}}
+			aenv := env.child()
+			aenv.sink = st
+			st.assume(aenv.evalBool(q))
+			ex.usedContracts["lemma "+shortPkg(ex.pkgPath)+"."+call.Op] = lem
+			continue
+		}
 		var lem *FnSpec
 		if ex.cf != nil {
 			lem = ex.cf.Fns["lemma "+u.Op]
